@@ -17,7 +17,9 @@ def observe(tier):
         tlc.append({"cfg": cfg, "cmd": g.describe(), "states": g.stats["distinct"], "transitions": g.n_lines, "wall_s": round(g.wall, 1)})
     return {"judge": [("JudgeLinks.tla", "JudgeLinks.cfg", files)], "tlc": tlc, "records": records,
             "explanation": "every tree of the generator x every admissible link placement (LinkShapeOK) x absolute/relative path rendered from the spec's "
-                           "PathOf/RelPath; for each: finalize, clean, save+load, second finalize/clean cycle; TLC (JudgeLinks) evaluates FinalizePost, "
-                           "RestorePost (incl. that the stored link still designates the target according to the spec's Resolve) and SavedAfterClean",
+                           "PathOf/RelPath, once as links (three concrete name pairs) and once as includes of a file holding the same tree (file:URL#path, a decoy "
+                           "file of the same base name loaded first); for each: finalize, clean, save+load, second finalize/clean cycle, then refused assignments of "
+                           "unresolvable references on plain / unresolved / resolved Sections; TLC (JudgeLinks) evaluates FinalizePost, RestorePost (incl. that the "
+                           "stored link still designates the target according to the spec's Resolve), SavedAfterClean and, for C06, that a refused reference changes nothing",
             "assumptions": ["all Sections have the same type (a same-name/other-type child is the separate known finding of C13)",
-                            "includes (URL#path) are exercised by the C18 family, links here"]}
+                            "uncertainties are compared as text (their type after an XML load is C01's subject)"]}
